@@ -15,10 +15,21 @@ func vpXBits(f float64) uint64 { return math.Float64bits(f) }
 
 // vpXLayout enumerates a span layout through the shape and returns it with the list of bucket indexes it denotes.
 func vpXLayout(name string) ([]histogram.Span, []int) {
-	lenLo, off0Lo, off0Hi, offLo, offHi := 1, 0, 1, 1, 2
 	if vpThorough() {
-		lenLo, off0Lo, off0Hi, offLo, offHi = 0, -1, 1, 0, 2
+		return vpXLayoutB(name, 0, -1, 1, 0, 2)
 	}
+	return vpXLayoutB(name, 1, 0, 1, 1, 2)
+}
+
+// vpXLayoutW is the layout space of the chunk round-trip harnesses: the quick bounds, plus zero-length spans in the thorough tier.
+func vpXLayoutW(name string) ([]histogram.Span, []int) {
+	if vpThorough() {
+		return vpXLayoutB(name, 0, 0, 1, 1, 2)
+	}
+	return vpXLayoutB(name, 1, 0, 1, 1, 2)
+}
+
+func vpXLayoutB(name string, lenLo, off0Lo, off0Hi, offLo, offHi int) ([]histogram.Span, []int) {
 	n := vpShape(name+"spans", 0, 2)
 	spans := make([]histogram.Span, n)
 	var idxs []int
